@@ -12,7 +12,8 @@ use crate::prng::{Fnv, Rng};
 use crate::schema::{self, GenMode, MapSchema, Site, Ty, PARAM_CMDS};
 use crate::trace::{DeliverExpect, Step};
 
-pub const REQUIRED_PROBES: [&str; 10] = [
+pub const REQUIRED_PROBES: [&str; 11] = [
+    "overlong_lossy_member_checked",
     "decode_ok",
     "decode_err",
     "nested_ok",
@@ -365,6 +366,20 @@ pub fn gen(seed: u64, run: u64, tier: &str) -> Vec<Step> {
             }
             if tags.is_empty() {
                 tags.push("fault_free_exchange".into());
+                // over-long names / icons in a fault-free message: the documented lossy result must come back
+                let mut sent = Vec::new();
+                for st in schema::walk(schema, &root) {
+                    if matches!(st.name.as_str(), "rp.name" | "user.name" | "user.displayName" | "user.icon") {
+                        if let Some(V::T(b)) = get(&root, &st.path) {
+                            if std::str::from_utf8(b).is_ok() {
+                                sent.push((st.name.clone(), b.clone()));
+                            }
+                        }
+                    }
+                }
+                if !sent.is_empty() && schema::schema_for(cmd).is_some() {
+                    nested.push(Step::LossyCheck { delivered: bytes.clone(), sent });
+                }
             }
             // nested decoders: the whole payload as the command's request struct, and natural sub-values
             if let Some(rt) = request_type_for(cmd) {
@@ -536,6 +551,13 @@ pub fn account(step: &Step, outcome: &str, stats: &mut Stats) {
                     ("delivered_hex_prefix", s(json::hex(&delivered[..delivered.len().min(64)]))),
                     ("outcome", s(outcome)),
                 ]));
+            }
+        }
+        Step::LossyCheck { .. } => {
+            stats.evaluations += 1;
+            stats.real_calls += 1;
+            if outcome == "lossy-overlong" {
+                stats.probe("overlong_lossy_member_checked");
             }
         }
         Step::DeliverNested { ty, .. } => {
